@@ -4,7 +4,10 @@
     max_code_length = 0, auto_select = false, auto_clear = none, so the
     AutoSelect*/AutoClear helpers are no-ops), selector.cc, navigator.cc (with
     Spans of translator_commons.cc), editor.cc, key_binding_processor_impl.h,
-    shape.cc (ShapeProcessor) and engine.cc (ProcessKey).  The default key maps
+    shape.cc (ShapeProcessor), gear/punctuator.cc (Punctuator: ProcessKeyEvent,
+    ConvertDigitSeparator, ReconvertDigitSeparatorAsPunct, AlternatePunct,
+    ConfirmUniquePunct, AutoCommitPunct, PairPunct) and engine.cc (ProcessKey; the
+    processor chain is [cf_processors cfg]).  The default key maps
     are Gen/Keymaps.v (regenerated from the source by gen/keymaps.py). *)
 From Coq Require Import List Arith NArith ZArith Bool.
 From Coq.Strings Require Import Byte.
@@ -244,7 +247,7 @@ Definition begin_move (s : state) : state :=
   if negb (bytes_eqb (st_nav_input s) (cx_input c)) || (spans_end (st_spans s) <? cx_caret c)
   then mkSt c (cx_input c)
             (fold_left (fun sp g => spans_add_span sp (s_start g) (s_end g)) (segs_fwd (cx_comp c)) [])
-            (st_commit s)
+            (st_commit s) (st_odd s)
   else st_with_ctx s c.
 
 Definition jump_left (s : state) (start_pos : nat) : state * bool :=
@@ -326,6 +329,154 @@ Definition navigator_process (s : state) (k : key) : state * presult :=
     let km := keymap_of_binds (if get_option (st_ctx s) opt_vertical then nav_vertical_binds else nav_horizontal_binds) in
     kbp_process run_nav_action km true s k.
 
+(** ---- Punctuator (gear/punctuator.cc) ---- *)
+(** [punctuation_is_translated(ctx, tag)] *)
+Definition punct_is_translated (c : context) (t : tag) : bool :=
+  match sg_segs (cx_comp c) with
+  | [] => false
+  | g :: _ => has_tag t (s_tags g) &&
+              match selected_cand g with Some cd => bytes_eqb (c_type cd) ty_punct | None => false end
+  end.
+
+(** [is_after_digit_separator(ctx)]: [comp[0]] is the FIRST segment *)
+Definition is_after_digit_separator (c : context) : bool :=
+  match segs_fwd (cx_comp c) with
+  | g :: _ => has_tag TPunctNumber (s_tags g) && (s_length g =? length (cx_input c))
+  | [] => false
+  end.
+
+(** [oddness_[definition]]: the map is keyed by the definition node, i.e. by
+    (mapping in force, key); a missing entry reads 0 *)
+Fixpoint odd_get (l : list (bool * byte * bool)) (fs : bool) (b : byte) : bool :=
+  match l with
+  | [] => false
+  | (f, k, v) :: r => if Bool.eqb f fs && Byte.eqb k b then v else odd_get r fs b
+  end.
+Fixpoint odd_set (l : list (bool * byte * bool)) (fs : bool) (b : byte) (v : bool) : list (bool * byte * bool) :=
+  match l with
+  | [] => [(fs, b, v)]
+  | (f, k, v') :: r => if Bool.eqb f fs && Byte.eqb k b then (f, k, v) :: r else (f, k, v') :: odd_set r fs b v
+  end.
+
+(** [Punctuator::AlternatePunct]: writes Segment::selected_index and status
+    directly (no notification).  [candidate_count()] after [Prepare(sel + 2)] is
+    max(prepared, min(sel + 2, total)); the index written, (sel + 1) mod that, does
+    not depend on the prepared count (sel + 2 <= total: sel + 1 either way; else the
+    count is the total), so the total-based [menu_prepare] of Menu.v is exact here
+    unless [sel + 2] wraps around 2^64 (as for Context::Highlight). *)
+Definition alternate_punct (c : context) (b : byte) (d : pdef) : context * bool :=
+  match d with
+  | PdList _ =>
+    match sg_segs (cx_comp c) with
+    | [] => (c, false)
+    | g :: _ =>
+      if negb (status_geb SVoid (s_status g)) && has_tag TPunct (s_tags g) then
+        let (t, ok) := substr_se (cx_input c) (s_start g) (s_end g) in
+        let c := ctx_check c ok ErrSubstr in
+        if bytes_eqb [b] t then
+          match s_menu g with
+          | None => (c, false)
+          | Some m =>
+            let count := menu_prepare m (size_wrap (s_sel g + 2)) in
+            if (count =? 0)%N then (c, false)
+            else
+              let g' := seg_with_status (seg_with_sel g (size_wrap (s_sel g + 1) mod count)%N) SGuess in
+              (ctx_with_comp c (sg_set_back (cx_comp c) g'), true)
+          end
+        else (c, false)
+      else (c, false)
+    end
+  | _ => (c, false)
+  end.
+
+(** [Punctuator::PairPunct] for a definition that has the key [pair]; [fs], [b]
+    identify the definition *)
+Definition pair_punct (s : state) (fs : bool) (b : byte) : state * bool :=
+  let c := st_ctx s in
+  match sg_segs (cx_comp c) with
+  | [] => (s, false)
+  | g :: _ =>
+    if negb (status_geb SVoid (s_status g)) && has_tag TPunct (s_tags g) then
+      match s_menu g with
+      | None => (s, false)
+      | Some m =>
+        if (menu_prepare m 2 <? 2)%N then (s, false)
+        else
+          let odd := odd_get (st_odd s) fs b in
+          let g' := seg_with_sel g (size_wrap (s_sel g + (if odd then 1 else 0)) mod 2)%N in
+          let s1 := mkSt (ctx_with_comp c (sg_set_back (cx_comp c) g')) (st_nav_input s) (st_spans s) (st_commit s)
+                         (odd_set (st_odd s) fs b (negb odd)) in
+          (fst (confirm_current_selection s1), true)
+      end
+    else (s, false)
+  end.
+
+(** the first segment of the composition ([comp[0]]) rewritten by [f] *)
+Definition map_front (f : segment -> segment) (l : list segment) : list segment :=
+  match rev l with
+  | [] => []
+  | g :: r => rev (f g :: r)
+  end.
+
+(** [Punctuator::ReconvertDigitSeparatorAsPunct] *)
+Definition reconvert_digit_separator (c : context) (b : byte) : context * bool :=
+  if match cf_digit_seps cfg with [] => true | _ => false end then (c, false)
+  else if negb (bytes_eqb (cx_input c) [b]) then (c, false)
+  else match segs_fwd (cx_comp c) with
+       | [] => (c, false)
+       | g0 :: _ =>
+         if has_tag TPunctNumber (s_tags g0) then
+           let f := fun g => seg_with_status (seg_with_tags g (tag_insert TPunct (tag_erase TPunctNumber (s_tags g)))) SVoid in
+           let c1 := ctx_with_comp c (sg_with_segs (cx_comp c) (map_front f (sg_segs (cx_comp c)))) in
+           (fst (reopen_previous_segment cfg translate c1), true)
+         else (c, false)
+       end.
+
+(** [Punctuator::ProcessKeyEvent] *)
+Definition punctuator_process (s : state) (k : key) : state * presult :=
+  if k_release k || k_ctrl k || k_alt k || k_super k then (s, PNoop)
+  else
+    let ch := k_code k in
+    if ((ch <? 32) || (127 <=? ch))%Z then (s, PNoop)
+    else
+      let c := st_ctx s in
+      if get_option c opt_ascii_punct then (s, PNoop)
+      else
+        let b := byte_of_N (Z.to_N ch) in
+        if (is_digit_byte b || (ch =? XK_space)%Z) && is_after_digit_separator c then
+          (fst (commit (on_ctx s (fun c => push_input c b))), PAccepted)
+        else if negb (cf_punct_use_space cfg) && (ch =? XK_space)%Z && is_composing c then (s, PNoop)
+        else if is_digit_separator cfg b && sg_empty (cx_comp c) && is_after_number (cx_hist c) then
+          (* ConvertDigitSeparator *)
+          let s1 := on_ctx s (fun c => push_input c b) in
+          if punct_is_translated (st_ctx s1) TPunctNumber then
+            if cf_digit_sep_commit cfg then (fst (commit s1), PAccepted)
+            else (on_ctx s1 (fun c => ctx_with_comp c (fst (forward (cx_comp c)))), PAccepted)
+          else (s1, PAccepted)
+        else
+          let fs := get_option c opt_full_shape in
+          match punct_lookup cfg (cx_opts c) b with
+          | None => (s, PNoop)
+          | Some d =>
+            let (c1, alternated) := alternate_punct c b d in
+            let s0 := st_with_ctx s c1 in
+            if alternated then (s0, PAccepted)
+            else
+              let (c2, reconverted) := reconvert_digit_separator c1 b in
+              let s1 := if reconverted then st_with_ctx s0 c2 else on_ctx s0 (fun c => push_input c b) in
+              let s2 :=
+                if punct_is_translated (st_ctx s1) TPunct then
+                  match d with
+                  | PdValue _ => fst (confirm_current_selection s1)       (* ConfirmUniquePunct *)
+                  | PdList _ => s1
+                  | PdMap (Some _) _ => fst (commit s1)                    (* AutoCommitPunct *)
+                  | PdMap None (Some _) => fst (pair_punct s1 fs b)        (* PairPunct *)
+                  | PdMap None None => s1
+                  end
+                else s1 in
+              (s2, PAccepted)
+          end.
+
 (** ---- Editor ---- *)
 Definition ed_revert_last_edit (s : state) : state :=
   fst (or_else (on_ctx_b s (reopen_previous_selection cfg translate))
@@ -400,8 +551,15 @@ Definition shape_process (s : state) (k : key) : state * presult :=
 
 (** ---- ConcreteEngine::ProcessKey ---- (the Switcher, first in the real
     list, has no hot keys in the modelled workspace and returns kNoop) *)
-Definition processors : list (state -> key -> state * presult) :=
-  [speller_process; selector_process; navigator_process; editor_process].
+Definition proc_of (i : proc_id) : state -> key -> state * presult :=
+  match i with
+  | PSpeller => speller_process
+  | PPunctuator => punctuator_process
+  | PSelector => selector_process
+  | PNavigator => navigator_process
+  | PEditor => editor_process
+  end.
+Definition processors : list (state -> key -> state * presult) := map proc_of (cf_processors cfg).
 
 Fixpoint run_processors (ps : list (state -> key -> state * presult)) (s : state) (k : key) : state * presult :=
   match ps with
@@ -420,6 +578,8 @@ Definition process_key (s : state) (k : key) : state * bool :=
   match ret with
   | PAccepted => (s1, true)
   | _ =>
+    (* context_->commit_history().Push(key_event) *)
+    let s1 := on_ctx s1 (fun c => ctx_with_hist c (hist_push_key (cx_hist c) k)) in
     let (s2, ret2) := shape_process s1 k in
     match ret2 with PAccepted => (s2, true) | _ => (s2, false) end
   end.
